@@ -9,7 +9,6 @@ import (
 	"encoding/json"
 	"fmt"
 	"math/rand"
-	"os"
 	"regexp"
 	"sort"
 	"strings"
@@ -471,17 +470,8 @@ func (u *Universe) TLA() []byte {
 }
 
 // ConstCfg is the CONSTANTS part of a cfg file.
-func ConstCfg(methods, spellings []string, maxSpell int, hdrCross bool) string {
+func ConstCfg(methods, spellings []string, maxSpell int, hdrCross bool, stacks []string) string {
 	return "CONSTANTS\n  Templates <- cTemplates\n  DocOps <- cDocOps\n  EmbOps <- cEmbOps\n  EmbOrder <- cEmbOrder\n" +
 		"  ParamVal <- cParamVal\n  ParamBk <- cParamBk\n  IntParams <- cIntParams\n  Tok <- cTok\n  Variant <- cVariant\n  EffectOf <- cEffectOf\n" +
-		fmt.Sprintf("  Methods = %s\n  Spellings = %s\n  MaxSpell = %d\n  ValidatorOn = %s\n  HdrCross = %s\n", qset(methods), qset(spellings), maxSpell, validatorOn(), tlaBool(hdrCross))
-}
-
-// validatorOn: VERIF_C18_NOVALIDATOR=1 selects the named alternative of the spec without the
-// request validator (binding self-check against a tree where that line was removed by hand).
-func validatorOn() string {
-	if os.Getenv("VERIF_C18_NOVALIDATOR") == "1" {
-		return "FALSE"
-	}
-	return "TRUE"
+		fmt.Sprintf("  Methods = %s\n  Spellings = %s\n  MaxSpell = %d\n  Stacks = %s\n  HdrCross = %s\n", qset(methods), qset(spellings), maxSpell, qset(stacks), tlaBool(hdrCross))
 }
